@@ -48,6 +48,7 @@ def same_iteration_dominator(bi, p, x):
     return bi.cfg.dominates(p, x) and set(bi.cfg.in_loop(p)) == set(bi.cfg.in_loop(x))
 
 
+@rule("C03", "R02.1", "tracker pairing: the ack-id map and the expiry schedule are updated together on every path", floor=6)
 @rule("C02", "R02.1", "tracker pairing: the ack-id map and the expiry schedule are updated together on every path", floor=6)
 @rule("C01", "R02.1", "tracker pairing: the ack-id map and the expiry schedule are updated together on every path", floor=6)
 @rule("C05", "R02.1", "tracker pairing: the ack-id map and the expiry schedule are updated together on every path", floor=6)
